@@ -201,6 +201,11 @@ def tiered_ranges(numtype, intsize, signed, start, end, shift_step,
         if endexcl:
             end -= 1
 
+    if start > end:
+        # Empty interval, e.g. an exclusive bound at the limit of the domain
+        # ([None TO min} or {max TO None]): nothing can match
+        return ()
+
     if not shift_step:
         return ((start, end, 0),)
 
